@@ -30,7 +30,8 @@ type mFunc struct {
 
 // mRef is a non-null function reference. imp records that it was created from an index that
 // is an import in the creating module (ref.func / element item / ftab entry of an imported
-// function): semantically irrelevant, but it is the class of finding C04-lookup-imported-funcref.
+// function): semantically irrelevant, kept as a coverage label (it was the class of the fixed
+// finding C04-lookup-imported-funcref).
 type mRef struct {
 	f   *mFunc
 	imp bool
@@ -91,6 +92,7 @@ type model struct {
 	okInst     int
 	failAfter  bool
 	sharedKind [4]bool
+	lookupImp  int
 
 	allowExcluded bool
 }
@@ -795,14 +797,14 @@ func (m *model) eval(s Step) mres {
 		if slot >= uint64(len(t.fn)) || t.fn[slot] == nil {
 			return mres{trap: trapTable}
 		}
-		if t.fn[slot].imp && !m.allowExcluded {
-			return mres{skip: true, excl: "excluded:lookup-of-reference-made-from-an-imported-function(" + findLookupImp + ")"}
-		}
 		f := t.fn[slot].f
 		if f.sig != s.Sig {
 			return mres{trap: trapSig}
 		}
 		m.read(who, t.lastW)
+		if t.fn[slot].imp {
+			m.lookupImp++
+		}
 		return mres{fnMod: f.modName, fnIdx: f.idx}
 	case "load8", "load32", "hm8", "hm32":
 		n := 1
